@@ -236,7 +236,7 @@ def main(run):
         npa, ns = len(prim), len(scell)
         full = rng.choice([True, False])
         cutoff = max(rng.choice([0.5, 0.8]) * gen.min_lattice_vector(scell.cell), 0.85 * min(np.linalg.norm(prim.cell, axis=1)))
-        phi = gen.pair_fc(scell, cutoff)
+        phi = U.pair_fc(scell, cutoff)
         fc_used = phi if full else F.full_fc_to_compact_fc(prim, phi)
         factor = rng.choice(factors)
         born0, eps0 = U.random_born_eps(rng, npa)
